@@ -92,9 +92,10 @@ CLAIMED = {
                 "write exactly header + every pixel of a well-formed uncompressed file: per-function contracts, loop invariants over the "
                 "output array, callee contracts for getbit/pack/iotostr/strtoio/dump; obligations discharged by z3 (goal-directed instantiation, "
                 "cvc5 fallback). Under contract: HRS, uncompressed MGE (RGB and composite palettes), raw CM3 lines (one/two pages, with/without "
-                "pattern block), MAX in the seven table-driven pixel modes, uncompressed VEF (three types, palette = six-bit colour code, pixel fields). "
-                "Not under contract: the two floating-point MAX artifact modes (-br/-rb) and PIX pixel positions (sizes only); a bounded PIX stand-in "
-                "(generated files vs the executable specification) runs with every check and is labelled bounded.",
+                "pattern block), MAX in the seven table-driven pixel modes, uncompressed VEF (three types, palette = six-bit colour code, pixel fields), "
+                "PIX (every sample of the sideways image at its position, both nibbles). "
+                "Not under contract: the two floating-point MAX artifact modes (-br/-rb; sizes only). A bounded PIX stand-in "
+                "(generated files vs the executable specification) runs with every check as a cross-check and is labelled bounded.",
                 level_note=_DEC_NOTE, technique="contract-based deductive verification: ast->VC generation with loop invariants, z3/cvc5"),
     "C17": dict(level_text="Deductive proof that for every valid encoding (defined by a ghost reference decoder that follows the format's token "
                 "semantics) the real decoder's output equals the rendering of the ghost image: run-length MGE, escape-coded RAT, CM3 line "
